@@ -189,6 +189,11 @@ class ConnH(explore.Harness):
                 again = [ev for ev in self.log[before[1]:] if any(v.get("value") == 0x4000 + g % 1000 for v in ev.values())]
                 if again:
                     self.viol.append(("connected:event-of-a-repeated-broadcast-delivered-again", {"gsn": g, "delivered": [{str(k): v for k, v in ev.items()} for ev in again], "connected_for_it": self._link() is not None}))
+            if fresh and not new and before[0] is not None and 1 <= g - before[0] <= 99 and bytes(getattr(self.pairing, "broadcast_key", b"") or b"") == self.key:
+                # the positive path (as in the history search of c18.py): authentic under the key the pairing holds, 1..99 ahead of what it tracks,
+                # for a characteristic its database knows - whatever the pairing is doing at this instant (connected, connecting, polling)
+                self.viol.append(("connected:genuine-notification-inside-the-window-rejected", {"gsn": g, "tracked": before[0], "link_up": self._link() is not None,
+                                                                                              "connection_attempts_in_flight": sum(1 for f in getattr(self.rig, "connecting", []) if not f.done())}))
             if fresh:
                 self.last_genuine = (g, payload)
                 if new:
